@@ -3,7 +3,7 @@ HOOK_COMMITS = ["39c5112", "584a771"]
 
 ENGINES = [
     {"name": "KM", "path": "/verif/kani-km + /verif/hbmodel",
-     "serves_properties": ["C01", "C02", "C03", "C04", "C05", "C07", "C08", "C09", "C10", "C12", "C17"],
+     "serves_properties": ["C01", "C02", "C03", "C04", "C05", "C06", "C07", "C08", "C09", "C10", "C11", "C12", "C13", "C14", "C17"],
      "kind_free_text": "Kani 0.68 compiles griddle (unchanged, /repo working tree) against a contract model of hashbrown's raw API; CBMC 6.11/CaDiCaL decides one-step inductive harnesses from arbitrary INV states (concrete table layouts, symbolic contents/arguments/callback decisions)"},
 ]
 
@@ -56,6 +56,22 @@ CHECKS = {
         text="Occupied/vacant handle methods (through the guarded hooks that build the handles as entry() does — the Entry enum itself is intractable for CBMC) and the whole raw-entry API, from arbitrary INV states with symbolic keys: handle designates the element wherever stored, writes through returned references are seen by later lookups, inserting calls that start a resize return a handle to the new element, replace_entry_with(None) then insert leaves the key exactly once.",
         design_ref="DESIGN.md §5 C12", note=_KM_NOTE + " Entry::or_insert*/or_default/insert dispatch (3-line matches) is not executed; entry()'s Occupied/Vacant decision is.",
         technique="SAT-based bounded model checking (Kani/CBMC) of per-method harnesses"),
+    "C06": dict(
+        text="Drop ledger decided by CBMC for all contents: keys and values are tokens whose Drop counts iff their id equals a universally quantified witness id; for insert (duplicate key, displaced value), remove/remove_entry, clear, retain, drain / into_iter / drain_filter consumed to enumerated prefixes then dropped (or forgotten), replace_entry / replace_key / replace_entry_with, entry removal and clone: created + cloned == dropped + handed back, and zero live table allocations once map and iterators are gone.",
+        design_ref="DESIGN.md §5 C06", note=_KM_NOTE + " Panic-free histories only; iterator consumption prefixes enumerated.",
+        technique="SAT-based bounded model checking (Kani/CBMC) with witness-id drop tokens"),
+    "C11": dict(
+        text="Source in any INV state, destination (clone_from) in any INV state with its own contents and a different hasher id: extensional equality of contents via the witness key, source bit-identical afterwards, destination unsplit with its previous contents (old table included) gone, hasher adopted, every hash computed during the call uses the source's builder, stored hashes consistent with the adopted builder (I6), no shared allocation, and a later write to the copy is invisible through the source.",
+        design_ref="DESIGN.md §5 C11", note=_KM_NOTE,
+        technique="SAT-based bounded model checking (Kani/CBMC) over pairs of symbolic table states"),
+    "C13": dict(
+        text="Element operations of HashSet (insert, remove, take, get, get_or_insert*, contains, retain, clear, extend, iter/drain/into_iter) decided per operation from arbitrary INV states with symbolic elements; is_subset / is_superset / is_disjoint / == on pairs of sets with symbolic contents against the definitions; the lazy algebra (union, intersection, difference, symmetric_difference, one operator form) on enumerated concrete-content pairs in different phases. Declined: HashSet::replace (Entry enum) and lazy iterators walking a mid-resize operand against a non-empty one (CBMC does not finish).",
+        design_ref="DESIGN.md §5 C13", note=_KM_NOTE + " Lazy algebra: contents concrete (bucket index = element), operand pairs enumerated.",
+        technique="SAT-based bounded model checking (Kani/CBMC); witness element for exactly-once yields"),
+    "C14": dict(
+        text="Pairs (and a triple) of maps in different shapes, phases and hasher ids whose contents are related only by assumptions over stored pairs: equal contents imply ==, symmetry, reflexivity, equal len/get/contains and equal iteration multiplicity for the witness key; a single differing value (also one parked in an old table) or key implies != both ways; transitivity on three maps. Debug output excluded (core::fmt).",
+        design_ref="DESIGN.md §5 C14", note=_KM_NOTE + " 4 elements per map; Debug formatting outside the claim.",
+        technique="SAT-based bounded model checking (Kani/CBMC) over pairs/triples of symbolic table states"),
     "C17": dict(
         text="The same harnesses are decided twice, with and without -C debug-assertions; the functional postconditions fully determine results, so both passing means equal behaviour. No assertion tagged debug-only (griddle's or the dependency's, mirrored in the model) may fail in the debug build, and Kani's overflow checks (always on) show no size computation can wrap.",
         design_ref="DESIGN.md §3.10, §5 C17", note=_KM_NOTE + " -C overflow-checks=off is not honoured by Kani; a reachable overflow is reported instead.",
@@ -65,5 +81,5 @@ CHECKS = {
 NOT_APPLICABLE = {
     "C15": "rayon work-stealing schedules: Kani/CBMC has no concurrency support and rayon-core cannot be symbolically executed; see DESIGN.md §6",
 }
-for _p in ["C06", "C11", "C13", "C14", "C16"]:
+for _p in ["C16"]:
     NOT_APPLICABLE.setdefault(_p, "check under construction in this session (harnesses not yet registered); will be claimed once its quick tier passes on the unchanged tree")
